@@ -182,7 +182,18 @@ func cmdParse(args []string) error {
 	cf := fs.String("cases", "cases.ndjson", "cases printed by TLC (PegCases)")
 	of := fs.String("out", "parse.json", "result")
 	shapes := fs.Bool("shapes", true, "also check CreateEvaluator / CreateFilter result shapes (C10)")
+	ef := fs.String("expect", "", "JSON list: the tree each prefabricated input was rendered from (C16)")
 	fs.Parse(args)
+	var expect []*expr.Expr
+	if *ef != "" {
+		eb, err := os.ReadFile(*ef)
+		if err != nil {
+			return err
+		}
+		if err := json.Unmarshal(eb, &expect); err != nil {
+			return err
+		}
+	}
 	installStepHook()
 	f, err := os.Open(*cf)
 	if err != nil {
@@ -196,7 +207,7 @@ func cmdParse(args []string) error {
 		Spec  interface{} `json:"spec"`
 		Impl  interface{} `json:"impl"`
 	}
-	var lang, steps, shape, budget []mm
+	var lang, steps, shape, budget, round, specround []mm
 	by := map[string]int{}
 	n, unm, nb := 0, 0, 0
 	var samples []interface{}
@@ -209,8 +220,10 @@ func cmdParse(args []string) error {
 				Acc string     `json:"acc"`
 				Ast *expr.Expr `json:"ast"`
 			} `json:"obs"`
-			Cnt uint64          `json:"cnt"`
-			Bud json.RawMessage `json:"bud"`
+			Cnt  uint64          `json:"cnt"`
+			Bud  json.RawMessage `json:"bud"`
+			Seed int             `json:"seed"`
+			Rt   bool            `json:"rt"`
 		}
 		if err := json.Unmarshal(sc.Bytes(), &c); err != nil {
 			return fmt.Errorf("bad case: %v: %s", err, trunc(sc.Text()))
@@ -242,6 +255,15 @@ func cmdParse(args []string) error {
 			}
 			if got.Cnt != 0 && got.Cnt != c.Cnt {
 				add(&steps, "parser steps", c.Cnt, got.Cnt)
+			}
+		}
+		if c.Seed > 0 && c.Seed <= len(expect) {
+			want := expect[c.Seed-1]
+			if !c.Rt {
+				add(&specround, "the specification does not read this rendering back as the tree it was rendered from", want, c.Obs)
+			}
+			if got.Acc != "yes" || !expr.Same(got.Ast, want, true) {
+				add(&round, "print-then-parse round trip", want, got)
 			}
 		}
 		if len(samples) < 6 && n%211 == 1 {
@@ -283,6 +305,6 @@ func cmdParse(args []string) error {
 		return err
 	}
 	out, _ := json.MarshalIndent(map[string]interface{}{"inputs": n, "unmodelled": unm, "byacc": by, "language": lang, "steps": steps, "shape": shape,
-		"budget": budget, "budgetruns": nb, "samples": samples}, "", " ")
+		"budget": budget, "budgetruns": nb, "samples": samples, "round": round, "specround": specround}, "", " ")
 	return os.WriteFile(*of, out, 0o644)
 }
